@@ -1,11 +1,10 @@
 //@ property: C10
 //@ mount: src/confidential.rs
 //@ functions: src/confidential.rs::Value::from_commitment, src/confidential.rs::Asset::from_commitment, src/confidential.rs::Nonce::from_commitment
-// CANDIDATE DEFECT (isolated; expected to FAIL on the unchanged tree for Value and Asset):
-// `Value::from_commitment(bytes: &[u8])` / `Asset::from_commitment` forward `bytes.as_ptr()` to
-// `secp256k1_pedersen_commitment_parse` / `secp256k1_generator_parse`, which read 33 bytes, without checking
-// `bytes.len()`.  A shorter slice is an out-of-bounds read from a *safe* public function.  The FFI model reads the
-// 33 bytes the C function reads, so Kani reports the out-of-bounds dereference.
+// `Value::from_commitment(bytes: &[u8])` / `Asset::from_commitment` end in `secp256k1_pedersen_commitment_parse` /
+// `secp256k1_generator_parse`, which read 33 bytes through a raw pointer.  A shorter slice must be refused before the
+// pointer is handed over (defect D12, repaired by 1520cf3: these harnesses failed with an out-of-bounds dereference
+// before the fix).  The FFI model reads the 33 bytes the C function reads, so Kani reports any such dereference.
 use super::*;
 use secp256k1_zkp::ffi as zffi;
 
@@ -61,14 +60,14 @@ fn nonce_from_commitment_total() {
 }
 
 //@ harness: value_from_commitment_oob class=F tier=quick props=C10
-//@ clause: Value::from_commitment on an 8-byte slice (its own allocation) performs no out-of-bounds read — EXPECTED TO FAIL: PedersenCommitment::from_slice hands the pointer to a C function that reads 33 bytes
+//@ clause: Value::from_commitment on an 8-byte slice (its own allocation, so any read past it is a distinct object) performs no out-of-bounds read and returns Err
 #[kani::proof]
 #[kani::stub(zffi::secp256k1_pedersen_commitment_parse, ffi_models::pedersen_commitment_parse)]
 fn value_from_commitment_oob() {
     ffi_models::init();
     let b: [u8; 8] = kani::any();
     match Value::from_commitment(&b) {
-        Ok(_) => { kani::cover!(true); }
+        Ok(_) => { assert!(false, "an 8-byte slice is not a commitment"); }
         Err(e) => { core::mem::forget(e); kani::cover!(true); }
     }
 }
